@@ -158,15 +158,7 @@ class VJson(SV):
         return out
 
 
-class VEnumerate(SV):
-    kind = 'enumerate'
-
-    def __init__(self, inner):
-        self.inner = inner
-
-    def sv_iter(self, eng, st, s):
-        lo, hi, elem = eng.iter_spec(st, self.inner, s)
-        return lo, hi, (lambda st2, k: VTuple([VInt(k - lo), elem(st2, k)]))
+from pyvc.world import VEnumerate   # noqa: E402
 
 
 class ValidatorWorld(World):
